@@ -3252,7 +3252,11 @@ class UTPM(Ring, RawAlgorithmsMixIn):
         D,P = a.data.shape[:2]
 
         if out is None:
-            r = cls(numpy.zeros(a.data.shape, dtype=complex))
+            shp = list(a.data.shape[2:])
+            if n is not None:
+                # the transformed axis is cropped or zero-padded to length n
+                shp[axis] = n
+            r = cls(numpy.zeros((D,P) + tuple(shp), dtype=complex))
 
         else:
             r, = out
@@ -3287,7 +3291,11 @@ class UTPM(Ring, RawAlgorithmsMixIn):
         D,P = a.data.shape[:2]
 
         if out is None:
-            r = cls(numpy.zeros(a.data.shape, dtype=complex))
+            shp = list(a.data.shape[2:])
+            if n is not None:
+                # the transformed axis is cropped or zero-padded to length n
+                shp[axis] = n
+            r = cls(numpy.zeros((D,P) + tuple(shp), dtype=complex))
 
         else:
             r, = out
